@@ -6,8 +6,8 @@ from props.C02 import Tracker, ekey
 ID = "C03"
 COQ_TARGETS = ["Run/Run_Gossip.vo"]
 META = {
-    "text": "Theorems (Properties/C03.v) over the Gallina world model: a caught-up view equals the owner's state exactly (keys, values, tombstones, version); one digest/delta exchange never moves a version backwards and, when the sender holds anything newer about a node listed in the digest and the first missing entry fits the packet, transfers at least that entry (strict progress of the per-pair deficit); hence a fair schedule of loss-free exchanges reaches equality within a number of rounds bounded by the total deficit. The bounded-convergence statement over whole clusters is exercised on every run: after a random lossy/compacting prefix, local writes stop and all-pairs rounds of loss-free exchanges with random packet sizes are run on the REAL nodes; an independent monitor checks the deficit never increases, strictly decreases every round until all live views equal the owners' states, and model and implementation agree on every packet and view.",
-    "note": "Partial: that the running node's random peer selection and timers produce a fair schedule is not modelled. An entry larger than max_packet_size - headers blocks dissemination for ever (finding G1, KNOWN_FINDINGS.txt): theorems carry the hypothesis 'fits', the witness is replayed on every run.",
+    "text": "Theorems (Properties/C03.v) over the Gallina world model: a caught-up view equals the owner's state exactly (keys, values, tombstones, version); no step of the world other than a local write ever increases the total deficit PsiAll or moves any reported version backwards (loss, duplication, reordering, truncation, relays, streams included); one complete digest/delta exchange a <- b on a quiet network, composed from the real handlers (WSend + deliveries), strictly decreases PsiAll whenever a is behind b's own state, a's digest lists b and the first entry of the reply fits (C03_pull_makes_progress: whatever node the cut reply starts with - id closure of the cluster is proved as an invariant); hence ANY sequence of at least PsiAll all-pairs rounds of such exchanges ends with PsiAll = 0 and a quiet network (C03_rounds_converge), and PsiAll = 0 means every view IS the owner's state (C03_converged_views); a concrete two-node instance satisfies every hypothesis (C03_rounds_example). The same schedules are run on the REAL nodes on every run: after a random lossy/compacting prefix and a backlog of mixed-size entries larger than one packet, all-pairs rounds of loss-free exchanges with packet sizes 215..1400; an independent monitor checks the deficit never increases, strictly decreases every round until all live views equal the owners' states, and model and implementation agree on every packet and view.",
+    "note": "Partial: that the running node's random peer selection and timers produce such a schedule (fairness), and exchanges overlapping in time, are not modelled (for arbitrary interleavings only no-regress is proved). An entry larger than max_packet_size - headers blocks dissemination for ever (finding G1, KNOWN_FINDINGS.txt): the theorems carry the hypothesis 'roomy', the witness is replayed on every run.",
     "technique": "Coq proof (deficit measure: monotone + strict progress per exchange under 'fits') + convergence campaigns on real nodes with a deficit monitor + model/implementation correspondence",
 }
 ASSUMPTIONS = ["every single entry fits a packet together with the headers (otherwise: known finding G1)",
